@@ -26,10 +26,9 @@ TRUSTED = [
 ]
 
 # priority order for attributing an unexplained-by-repair failure to a class present in the input
+# (the classes of C14-ident-star-bare, C14-restricted-position, C14-param-range are gone: repaired by commits 328740d,
+#  95d15ad + 2a611aa, 1b7b9df -- a recurrence is a VIOLATION)
 CLASS_TO_FINDING = [
-    ("ident-star-bare", "C14-ident-star-bare"),
-    ("restricted-position", "C14-restricted-position"),
-    ("param-range", "C14-param-range"),
     ("doc-comment-split", "C14-doc-comment-split"),
     ("float-nonfinite", "F11-float-nonfinite"),
     ("float-integral", "F11-float-integral"),
@@ -127,6 +126,8 @@ def run_oracle(ck, fmt_keywords):
         r = f.get("replay", {})
         for s in ([r["src"]] if "src" in r else []) + list(r.get("srcs", [])):
             fixed.append(("oracle-known-replays", s))
+    # the positions repaired by commits 95d15ad / 2a611aa / 1b7b9df / 328740d, every (position, form) pair
+    fixed += [("oracle-restricted-positions", s) for s in G.restricted_position_sources()]
     streams += fixed
     # exhaustive (parent, side, child) triples at depth 2 and sampled depth-3 chains
     for key, e in G.triples():
@@ -207,6 +208,37 @@ def run_oracle(ck, fmt_keywords):
         else:
             ck.disagreement("formatting changes the program (%s) and no known finding explains it" % ",".join(problems), case, None)
     ck.coverage["oracle"] = {"sources": len(streams), "parsed": n_parsed, "compiled_ok": n_comp, "targets": TARGETS}
+    run_deep_nesting(ck)
+
+
+def run_deep_nesting(ck):
+    """C14-fmt-exponential (fixed by c8b3817): formatting time was exponential in the nesting depth of parenthesised
+    operands that do not fit the line (depth 22: 44 s, depth 24: about 3 min; now: milliseconds).  One directed
+    case, generous limit: a recurrence is a VIOLATION."""
+    import subprocess, time
+    from ..common import HARNESS_BIN, harness_build
+    harness_build()
+    src = G.deep_nesting_source(24)
+    limit = 45
+    t0 = time.time()
+    try:
+        p = subprocess.run([HARNESS_BIN, "c14"], input=json.dumps({"src": src, "targets": [], "compile": False}) + "\n",
+                           capture_output=True, text=True, timeout=limit)
+        out = [l for l in p.stdout.split("\n") if l.strip()]
+        a = json.loads(out[0]) if out else {"abort": p.returncode}
+    except subprocess.TimeoutExpired:
+        a = {"hang": limit}
+    dt = time.time() - t0
+    ck.count("oracle-deep-nesting", src)
+    ck.stat("oracle-deep-nesting", "seconds<1" if dt < 1 else "seconds<10" if dt < 10 else "seconds>=10")
+    if "hang" in a:
+        ck.disagreement("formatting a 24-level nest of parenthesised operands does not finish in %d s" % limit, {"src": src, "seconds": round(dt, 1)}, None)
+        return
+    if not isinstance(a, dict) or "fmt" not in a:
+        ck.disagreement("the formatter fails on a 24-level nest of parenthesised operands", {"src": src, "answer": str(a)[:300]}, None)
+        return
+    if "pl2" not in a or O.canon(O.strip(a["pl2"])) != O.canon(O.strip(a["pl"])) or a.get("fmt2") != a["fmt"]:
+        ck.disagreement("formatting changes the program", {"src": src, "fmt": a.get("fmt"), "problems": ["ast-or-idem"]}, None)
 
 
 def run_replay(ck, path, fmt_keywords):
